@@ -27,7 +27,7 @@ try:
     if prop in ("C04", "C05") and os.environ.get("MUTCHECK_NOKC"):
         cmd = ["python3", str(V / ("engine/gen%s.py" % prop[2])), "check", "--tier", tier, "--no-kc"]
         detfile = "detection-gen%s.json" % prop[2]
-    elif prop in ("C06", "C07", "C11", "C12"):
+    elif prop in ("C06", "C07", "C09", "C11", "C12"):
         cmd = ["python3", str(V / ("engine/gen%s.py" % prop[1:].lstrip("0"))), "check", "--tier", tier]
     elif False:
         cmd = ["python3", str(V / ("engine/gen6.py" if prop == "C06" else "engine/gen12.py")), "check", "--tier", tier]
